@@ -15,6 +15,7 @@ def run(ctx):
         {"world": "adversarial", "sim": 3 if q else 20, "steps": 7 if q else 9, "avoid": True, "cap": 280 if q else 4000, "seeds": 1 if q else 3},
         {"world": "replay", "sim": 3 if q else 20, "steps": 6 if q else 9, "avoid": True, "cap": 150 if q else 2000, "seeds": 1 if q else 2},
     ]
+    plans.append({"world": "valsets", "sim": 3 if q else 20, "steps": 7 if q else 9, "avoid": True, "cap": 200 if q else 3000, "seeds": 1 if q else 2})
     if not q:
         plans.append({"world": "happy", "sim": 20, "steps": 10, "avoid": True, "cap": 3000, "seeds": 2})
     design = [("Mirror_c05.cfg", {"MaxSteps": 3 if q else 4}, "C05_Inert (action property) over the adversarial vote universe")]
